@@ -317,3 +317,13 @@ def write_evidence(cx: Check, tier, seed, wall, matched, unknown, err):
 
 def sha(text: str) -> str:
     return hashlib.sha256(text.encode("utf-8")).hexdigest()[:16]
+
+
+def workers(default: int) -> int:
+    """size of a process/thread pool inside a check: `default` capped by the machine and by VERIF_POOL (the self-test runs many
+    checks side by side and tells each one to stay small)"""
+    cap = os.environ.get("VERIF_POOL")
+    n = min(default, os.cpu_count() or 2)
+    if cap and cap.isdigit():
+        n = min(n, max(1, int(cap)))
+    return max(1, n)
